@@ -832,7 +832,18 @@ func c17(c *Ctx) {
 		if len(c17Known(in, p, mode)) > 0 || c17BashOdd(in, p, mode) {
 			return
 		}
-		if len(probes) < bashBudget {
+		if strings.Contains(p, "[:") {
+			// POSIX classes are the ASCII tables in the model; bash in a UTF-8 locale also accepts
+			// non-ASCII letters (documented restriction): ASCII subjects only
+			var ascii []string
+			for _, s := range strs {
+				if strings.IndexFunc(s, func(r rune) bool { return r > 127 }) < 0 {
+					ascii = append(ascii, s)
+				}
+			}
+			strs = ascii
+		}
+		if len(probes) < bashBudget && len(strs) > 0 {
 			probes = append(probes, c17Probe{p, mode &^ l3Shortest, strs})
 		}
 	}
